@@ -151,6 +151,19 @@ class Engine(Interp):
 
     def loop_join(self, table, key, st):
         """at a loop head: returns the state to continue with, or None when subsumed"""
+        hook = getattr(self, 'iteration_hook', None)
+        if hook is not None and not st.unwinding and table.get(key):
+            # (a non-empty table entry: this activation of the loop has been through its head before)
+            ev = st.events
+            mark = ('loop', key)
+            last = None
+            for i in range(len(ev) - 1, -1, -1):
+                if ev[i] == mark:
+                    last = i
+                    break
+            if last is not None:
+                # one complete iteration of this loop: events since the head was last left
+                hook(key, st, ev[last + 1:])
         try:
             shape, st = self.canonicalise(st, 'h%s' % (key,))
         except TypeError:
@@ -645,6 +658,8 @@ class Engine(Interp):
         eff = t['effects']
         self.stats['opaque_calls'] += 1
         self.unmodelled['opaque:' + nm] += 0
+        otags = tuple(self.tag_of(a) for a in args)
+        st.log('opaque', nm, otags)
         if any(self.sensitive(st, a) for a in args):
             self.check_exposed(st, args, nm)
         cls = []
@@ -670,7 +685,7 @@ class Engine(Interp):
             diverges = dest_ty is not None and dest_ty.get('k') == 'never'
             if diverges:
                 continue
-            val = self.mk_unknown(s, dest_ty, ('c', nm, tuple(self.tag_of(a) for a in args)), gs)
+            val = self.mk_unknown(s, dest_ty, ('c', nm, otags), gs)
             out.append(('ret', s, val))
         return out
 
